@@ -120,7 +120,21 @@ def explore(chk, rnd, tier):
     while done < n and not chk.violations:
         m = min(20000, n - done)
         cases = []
-        for _ in range(m):
+        # histories: the process-wide selector cache is keyed by selector TEXT, so the same text is
+        # applied to several documents of different shapes (and ragged arrays) within one process
+        pool_docs = [gen_doc(rnd) for _ in range(12)]
+        ragged = {"grid": [[1, 2], [3, 4, 5], [], [6]], "rows": [["a", "b", "c"], ["d"]], "items": ["a", "b", "c"],
+                  "users": [{"tags": [1]}, {"tags": [1, 2, 3]}, {"tags": []}]}
+        ragged2 = {"grid": [[1], [2, 3, 4, 5, 6]], "rows": [["x"], ["y", "z", "w", "v"]], "items": ["a", "b", "c", "d", "e"],
+                   "users": [{"tags": [1, 2, 3, 4]}, {"tags": [2]}]}
+        for _ in range(m // 40):
+            sel = gen_selector(rnd, rnd.choice(pool_docs))
+            if rnd.random() < 0.5:
+                sel = rnd.choice(["grid", "rows", "items", "users[each].tags", "users.tags"]) + \
+                    "[" + ("keep=>" if rnd.random() < 0.3 else "") + ":".join(gen_dim(rnd) for _ in range(rnd.randint(1, 2))) + "]"
+            for d in rnd.sample(pool_docs, 4) + [ragged, ragged2, ragged]:
+                cases.append((d, sel, "history"))
+        while len(cases) < m:
             doc = gen_doc(rnd)
             k = rnd.random()
             sel = gen_selector(rnd, doc)
